@@ -319,24 +319,32 @@ type c05ApplyReal struct {
 	Main string          `json:"main"`
 }
 
-func c05MemberOf(out json.RawMessage, outs []json.RawMessage) bool {
-	for _, o := range outs {
-		if core.CanonEqual(out, o) {
-			return true
-		}
-	}
-	// a panic is compared by site only
-	var r struct {
+// c05Norm maps every way the merge step can fail — "cannot override", or a panic of one of the special mergers
+// (override.*) — to one class: *which* of several failing attributes is reported first depends on Go's map order
+// inside mergeMappings (that is C04's concern, where the alternatives are enumerated); a panic elsewhere keeps its site.
+func c05Norm(out json.RawMessage) json.RawMessage {
+	var m struct {
+		Err   *string `json:"err"`
 		Panic *string `json:"panic"`
 	}
-	if json.Unmarshal(out, &r) == nil && r.Panic != nil {
-		for _, o := range outs {
-			var d struct {
-				Panic *string `json:"panic"`
-			}
-			if json.Unmarshal(o, &d) == nil && d.Panic != nil && *d.Panic == *r.Panic {
-				return true
-			}
+	if json.Unmarshal(out, &m) != nil {
+		return out
+	}
+	switch {
+	case m.Err != nil && *m.Err == "cannotOverride", m.Panic != nil && strings.HasPrefix(*m.Panic, "override."):
+		return json.RawMessage(`{"fail":"merge"}`)
+	case m.Panic != nil:
+		b, _ := json.Marshal(map[string]string{"panic": *m.Panic})
+		return b
+	}
+	return out
+}
+
+func c05MemberOf(out json.RawMessage, outs []json.RawMessage) bool {
+	n := c05Norm(out)
+	for _, o := range outs {
+		if core.CanonEqual(n, c05Norm(o)) {
+			return true
 		}
 	}
 	return false
@@ -355,11 +363,6 @@ func judgeC05Apply(args, real, drv json.RawMessage) *core.Verdict {
 	}
 	if json.Unmarshal(drv, &d) != nil || len(d.Outs) == 0 {
 		return core.Disagree("malformed driver outcome: " + string(drv))
-	}
-	for _, o := range d.Outs {
-		if strings.Contains(string(o), `"err":"special"`) {
-			return core.Skip("attribute with a special merge rule")
-		}
 	}
 	if !c05MemberOf(r.Out, d.Outs) {
 		return core.Disagree("ApplyExtends outcome is not an outcome of Extends.applyExtendsOrd under any visit order")
@@ -534,14 +537,22 @@ func init() {
 		Real:     realC05Extend,
 		DriverOp: "c05.extend",
 		Judge: func(args, real, drv json.RawMessage) *core.Verdict {
-			if strings.Contains(string(drv), `"err":"special"`) {
-				return core.Skip("special rule")
+			if c := core.Class(real); c == "fatal" || c == "hang" {
+				return core.Disagree("ExtendService died: " + string(real))
 			}
-			if c := core.Class(real); c == "panic" || c == "fatal" || c == "hang" {
-				return core.Disagree("ExtendService crashed on a rule-free input: " + string(real))
+			var d struct {
+				Full  json.RawMessage `json:"full"`
+				Plain json.RawMessage `json:"plain"`
 			}
-			if !core.CanonEqual(real, drv) {
-				return core.Disagree("Extends.plainExtend ≠ override.ExtendService")
+			if json.Unmarshal(drv, &d) != nil || d.Full == nil || d.Plain == nil {
+				return core.Disagree("malformed driver outcome: " + string(drv))
+			}
+			if !core.CanonEqual(c05Norm(real), c05Norm(d.Full)) {
+				return core.Disagree("Extends.mergeExtend (CV.Merge.extendService) ≠ override.ExtendService")
+			}
+			// the rule-free merge of Model/Extends.lean agrees with the full model wherever it is defined
+			if !strings.Contains(string(d.Plain), `"err":"special"`) && !core.CanonEqual(c05Norm(d.Plain), c05Norm(d.Full)) {
+				return core.Disagree("Extends.plainExtend ≠ Extends.mergeExtend on a rule-free input")
 			}
 			return nil
 		},
